@@ -208,6 +208,57 @@ def _get_content_type(headers):
 hc.get_content_type = _get_content_type
 hs.get_content_type = _get_content_type
 
+# ---- exception messages that format (symbolic) integers with f-strings -------------------------------------------------------
+import ast as _ast
+import inspect as _inspect
+import textwrap as _textwrap
+
+
+class _FStringCut(_ast.NodeTransformer):
+    """f"... {value} ..." -> "... {} ..." (the literal text without formatting the values): formatting a symbolic integer
+    realises it value by value.  Only message text changes; exception types and control flow are untouched."""
+
+    def __init__(self):
+        self.cut = []
+
+    def visit_JoinedStr(self, node):
+        if all(isinstance(v, _ast.Constant) for v in node.values):
+            return node
+        text = "".join(v.value if isinstance(v, _ast.Constant) else "{}" for v in node.values)
+        self.cut.append(text)
+        return _ast.copy_location(_ast.Constant(text), node)
+
+
+def cut_fstrings(fn):
+    """fn recompiled from its current source with the f-strings un-formatted (decorators kept, module globals shared)"""
+    raw = fn
+    while hasattr(raw, "__wrapped__"):
+        raw = raw.__wrapped__
+    src = _textwrap.dedent(_inspect.getsource(raw))
+    filename = _inspect.getsourcefile(raw) or "?"
+    tree = _ast.parse(src)
+    cutter = _FStringCut()
+    tree = cutter.visit(tree)
+    if not cutter.cut:
+        return fn
+    _ast.fix_missing_locations(tree)
+    ns = {}
+    exec(compile(tree, filename, "exec"), raw.__globals__, ns)
+    new = ns[tree.body[0].name]
+    hlib.encoded(raw)
+    for text in cutter.cut:
+        hlib.CUTS.append({"file": filename, "line": raw.__code__.co_firstlineno,
+                          "src": "in %s: f-string message not formatted: %r" % (raw.__qualname__, text[:100])})
+    return new
+
+
+hc.read_share_chunk = cut_fstrings(hc.read_share_chunk)
+for _name, _attr in list(vars(hs._ReadRangeProducer).items()):
+    if _inspect.isfunction(_attr) and not _name.startswith("__"):
+        _new = cut_fstrings(_attr)
+        if _new is not _attr:
+            setattr(hs._ReadRangeProducer, _name, _new)
+
 # ---- header text stand-ins ------------------------------------------------------------------------------------------
 _TAB = []           # per-run table: placeholder number -> (kind, units, payload)
 _MARK = re.compile(r"<verif-sym-(\d+)>")
